@@ -18,7 +18,10 @@ out = ["## 13. Seeded changes and which checks catch them", "",
        "the checker is a symbolic exact-arithmetic analysis with lints and asked for defects such an analysis would plausibly overlook",
        "(float64 cancellation, import-order dtypes, integer truncation, hidden state, special values, tail accuracy). Round 7 (`L<n>-d<k>`): one area",
        "of the code per agent that earlier rounds had touched least (truncated measures, feature models, pytrees / dicts / sampling, factors and polynomial",
-       "integrals, densities and diagonal conditionals); one of its 20 changes duplicated H3-d1 exactly and is not kept. The rows marked **none**",
+       "integrals, densities and diagonal conditionals); one of its 20 changes duplicated H3-d1 exactly and is not kept. Round 8 (`M<n>-d<k>`): ten agents, each given",
+       "the text of ONE property (C05-C11, C13, C16, C19) and asked for two changes that need a multi-step sequence, an unusual input, a particular size combination,",
+       "a particular constructor route or two cooperating sites (evaluated with `seed_eval_wt.sh`: private worktree, the twenty checks in parallel). Three of the ten agents",
+       "independently wrote the same kind of shortcut (a contiguity test on the end points of an index list). The rows marked **none**",
        "are kept on purpose: they are the measured limit of the technique (section 12).", "",
        "| seed | target | change | needs to manifest | reported by | first missed? -> strengthening |", "|---|---|---|---|---|---|"]
 for m in rows:
